@@ -21,7 +21,23 @@ SMALL = [("int", 1), ("int", 2147483647), ("bigint", 2 ** 63), ("byte", 255), ("
          ("byte", 2), ("bigint", 3)]
 
 
+# alternative spellings of literals: ("form", kind, value, spelling).  The folded rendering uses the spelling, the unfolded one
+# declares the variable with the canonical decimal / binary literal of the same kind and value.
+FORMS = (
+    [("form", "int", v, sp) for v, sp in ((0, "0x0"), (31, "0x1f"), (31, "0x1F"), (31, "0x0_1f"), (2147483647, "0x7fffffff"), (2147483647, "0x7FFF_FFFF"),
+                                          (1000, "1_000"), (2147483647, "2_147_483_647"), (7, "007"), (0, "00"), (65536, "0x1_0000"))]
+    + [("form", "intlit-wide", v, sp) for v, sp in ((2147483648, "0x80000000"), (2147483648, "2_147_483_648"), (4294967295, "0xFFFF_FFFF"))]
+    + [("form", "bigint", v, sp) for v, sp in ((16, "B0x10"), (2 ** 64 - 1, "B0xFFFF_FFFF_FFFF_FFFF"), (1000, "B1_000"), (7, "B007"), (2 ** 127 - 1, "B0x7" + "f" * 31),
+                                               (3, "B0x3"), (2 ** 63, "B9_223_372_036_854_775_808"))]
+    + [("form", "byte", v, sp) for v, sp in ((255, "0b1111_1111"), (1, "0b00000001"), (0, "0b0000_0000"), (128, "0b1000_0000"), (2, "0b010"))]
+    + [("form", "float", v, sp) for v, sp in ((5.0, "5f"), (5.0, "5F"), (0.0, "0f"), (10.25, "1_0.2_5"), (7.5, "007.50"), (1000.0, "1_000f"), (0.5, "0.5_0"),
+                                              (1.5, "01.5"))]
+)
+
+
 def lit(leaf):
+    if leaf[0] == "form":
+        return leaf[3]
     k, v = leaf
     if k in ("int", "intlit-wide"):
         return str(v)
@@ -67,6 +83,8 @@ TYPE = {"int": "int", "intlit-wide": "bigint", "bigint": "bigint", "byte": "byte
 
 
 def decl(nm, leaf, other_kind="int"):
+    if leaf[0] == "form":
+        leaf = (leaf[1], leaf[2])
     k, v = leaf
     if k == "nil":
         return f"{nm}: {TYPE[other_kind]}? = nil"
@@ -79,7 +97,7 @@ def programs(t):
     e2 = render(t, names)
     is_list = t[0] == "list"
     f = f"print {e1}\n" + ("" if is_list else f"print typeof {e1}\n")
-    kinds = [leaf[0] for _, leaf in names if leaf[0] != "nil"] or ["int"]
+    kinds = [(leaf[1] if leaf[0] == "form" else leaf[0]) for _, leaf in names if leaf[0] != "nil"] or ["int"]
     u = "".join(decl(nm, leaf, kinds[0]) + "\n" for nm, leaf in names) + f"print {e2}\n" + ("" if is_list else f"print typeof {e2}\n")
     return f, u
 
@@ -107,7 +125,9 @@ class C06(Check):
     rule = ("all literal expression trees: depth 1 = every (leaf op leaf) over 33 literals of the four kinds (boundary values, "
             "incl. the int literal that does not fit 32 bits) x 10 foldable operators, unary minus / ! / get / or on every leaf; "
             "depth 2 = (T op L), (L op T), -(T), -(-L), list nesting over 8 leaves; depth 3 (thorough) = ((L op L) op L) op L and "
-            "mirrored shapes over 4 leaves.  Each tree is run folded and unfolded.  Non-trivial = both renderings are accepted "
+            "mirrored shapes over 4 leaves; literal spellings = 34 alternative spellings (hexadecimal, digit separators, leading zeros, "
+            "f suffix, B-prefixed hexadecimal) alone, negated, in a list and as either operand of every operator, folded in that spelling vs. unfolded "
+            "over variables initialised with the canonical literal.  Each tree is run folded and unfolded.  Non-trivial = both renderings are accepted "
             "by the type checker or exactly one fails; distinct = distinct trees.")
     assumptions = ["dev profile", "kind observed through hook H2", "float digits compared by value (shortest-digit ties)"]
     chunksize = 32
@@ -147,7 +167,20 @@ class C06(Check):
                     yield ("bin", o3, ("bin", o2, ("bin", o1, ("L", a), ("L", b)), ("L", c)), ("L", d))
                     yield ("bin", o3, ("bin", o1, ("L", a), ("L", b)), ("bin", o2, ("L", c), ("L", d)))
 
-        ls = [("L0-depth1", d1())]
+        def forms():
+            for a in FORMS:
+                yield ("L", a)
+                yield ("neg", ("L", a))
+                yield ("list", ("L", a), ("neg", ("L", a)))
+                for op in OPS:
+                    for b in SMALL:
+                        yield ("bin", op, ("L", a), ("L", b))
+                        yield ("bin", op, ("L", b), ("L", a))
+                    for b in FORMS:
+                        if tier == "thorough" or op in ("+", "/", "&", "<<"):
+                            yield ("bin", op, ("L", a), ("L", b))
+
+        ls = [("L0-depth1", d1()), ("Lf-literal-spellings", forms())]
         if tier == "quick":
             def d2q():
                 for i, t in enumerate(d2()):
@@ -173,7 +206,7 @@ class C06(Check):
 
         def shape(t):
             if t[0] == "L":
-                return t[1][0]
+                return "form-" + t[1][1] if t[1][0] == "form" else t[1][0]
             if t[0] == "bin":
                 return f"({shape(t[2])}{t[1]}{shape(t[3])})"
             return t[0] + "(" + ",".join(shape(x) for x in t[1:]) + ")"
